@@ -431,4 +431,36 @@ def memtableAccepts (e : Event) : Bool := !blank e.contextId && !blank e.eventTy
 def query (st : St) (eventType : String) (ctx : Option String) : List Event :=
   st.events.filter fun e => e.eventType == eventType && (match ctx with | none => true | some c => e.contextId == c)
 
+/-! ## The STORE grammar's JSON block (`src/command/parser/commands/store.rs`)
+
+`balanced_braces = "{" (balanced_braces / (!"}" [_]))* "}"` — a PEG: ordered choice, greedy
+repetition, no backtracking into an alternative that succeeded. Braces are counted without
+regard to JSON string quoting. `fuel` bounds the recursion (each call consumes input or fails). -/
+
+mutual
+/-- One `balanced_braces` group at the head of the input; the rest after it. -/
+def pegBalanced : Nat → List Char → Option (List Char)
+  | fuel + 1, '{' :: rest => pegBody fuel rest
+  | _, _ => none
+/-- The `( … )* "}"` part. -/
+def pegBody : Nat → List Char → Option (List Char)
+  | 0, _ => none
+  | fuel + 1, cs =>
+    match pegBalanced fuel cs with
+    | some rest => pegBody fuel rest          -- a nested group was consumed
+    | none =>
+      match cs with
+      | '}' :: rest => some rest              -- repetition ends, closing brace
+      | _ :: rest => pegBody fuel rest        -- `!"}" [_]`
+      | [] => none
+end
+
+def isPegSpace (c : Char) : Bool := c == ' ' || c == '\t' || c == '\n' || c == '\r'
+
+/-- `json_block() _` up to end of input: does the grammar take exactly this text as the payload? -/
+def jsonBlockAccepts (text : List Char) : Bool :=
+  match pegBalanced (2 * text.length + 4) (text.dropWhile isPegSpace) with
+  | some rest => rest.all isPegSpace
+  | none => false
+
 end Snel.Validate
